@@ -1,6 +1,6 @@
 (* C03 - Mailbox ordering: per-sender FIFO within a priority, strict priority classes. *)
 From Ergo Require Import Common.Base Sched.Model Sched.CountFacts Sched.QueueFacts Sched.IdInv Sched.ScanProofs
-  Sched.MailboxProofs Sched.FifoProofs Mbox.Queue Mbox.Order.
+  Sched.MailboxProofs Sched.FifoProofs Mbox.Queue Mbox.Order Mbox.Mpsc Mbox.MpscProofs.
 
 (* Per-sender FIFO.  In the process model of C01/C02 (any number of concurrent senders by pid
    or by registered name, Kill callers, self-sends, every schedule): restricted to the messages
@@ -53,6 +53,98 @@ Theorem C03_mpsc_fifo : forall limit ops,
   accepted ops rs = popped ops rs ++ q_items s'.
 Proof. exact mpsc_sequential_fifo. Qed.
 Print Assumptions C03_mpsc_fifo.
+
+(* The queue as the pointer structure it is (lib/mpsc.go: numbered nodes with value and next, head,
+   tail; Push = allocate + atomic head swap, then the store old_head.next = item; Pop by the single
+   consumer reads tail.next), with ANY number of producers and ANY interleaving.  [abs] reads the
+   structure as the list of entries after the tail in head-swap order, each with the flag "its
+   predecessor's next points to it" - the queue of the process model above.  [MpInv s pending] is
+   the invariant, [pending] the (old_head, item) pairs of the producers between their two steps.
+   Each step of the structure is one operation of that list: *)
+Theorem C03_mpsc_swap_refines : forall s pending v,
+  MpInv s pending ->
+  let '(s', (old, i)) := p_swap s v in
+  abs s' = abs s ++ [(i, v, false)] /\ MpInv s' ((old, i) :: pending).
+Proof. exact swap_refines. Qed.
+Print Assumptions C03_mpsc_swap_refines.
+
+Theorem C03_mpsc_link_refines : forall s pending a b,
+  MpInv s pending -> In (a, b) pending ->
+  abs (p_link s a b) = a_mark b (abs s) /\ MpInv (p_link s a b) (rm_pair (a, b) pending).
+Proof. exact link_refines. Qed.
+Print Assumptions C03_mpsc_link_refines.
+
+Theorem C03_mpsc_pop_refines : forall s pending,
+  MpInv s pending ->
+  match c_pop s with
+  | (s', Some v) => a_pop (abs s) = Some (v, abs s') /\ MpInv s' pending
+  | (s', None) => a_pop (abs s) = None /\ s' = s
+  end.
+Proof. exact pop_refines. Qed.
+Print Assumptions C03_mpsc_pop_refines.
+
+(* Whole runs: producers k = 0.. each push the values of their program [nth k progs []] one after
+   the other (two steps per Push), the consumer pops whenever the schedule says so.  For every
+   schedule: the popped values followed by the values still queued are exactly the values in
+   head-swap order (nothing lost, duplicated or reordered), and the values producer k swapped,
+   followed by those it has not pushed yet, are its program - so each producer's values come out
+   in its program order. *)
+Theorem C03_mpsc_refines_fifo : forall progs sched,
+  let '(c', popped) := mp_run sched (mp_init progs) in
+  let sw := mp_swapped sched (mp_init progs) in
+  popped ++ a_vals (abs (mp_st c')) = map snd sw /\
+  (forall k, nth k progs [] = by_producer k sw ++ todo_of c' k) /\
+  MpInv (mp_st c') (pendings (mp_prods c')).
+Proof. exact mpsc_refines_fifo. Qed.
+Print Assumptions C03_mpsc_refines_fifo.
+
+(* An entry is unlinked exactly while the producer of its node is between its two steps ... *)
+Theorem C03_mpsc_unlinked_iff_pending : forall s pending i v f,
+  MpInv s pending -> In (i, v, f) (abs s) -> (f = true <-> forall a, ~ In (a, i) pending).
+Proof. exact abs_flag. Qed.
+Print Assumptions C03_mpsc_unlinked_iff_pending.
+
+(* ... so in every reachable configuration the values whose link store and all earlier link stores
+   have completed are what the next pops return, in order (a_pop (abs s) is Some as soon as the
+   first entry is linked). *)
+Theorem C03_mpsc_linked_prefix_visible : forall progs sched pre rest,
+  let c' := fst (mp_exec sched (mp_init progs)) in
+  abs (mp_st c') = pre ++ rest ->
+  (forall i v f a, In (i, v, f) pre -> ~ In (a, i) (pendings (mp_prods c'))) ->
+  let '(s', vs) := pop_n (length pre) (mp_st c') in vs = a_vals pre /\ abs s' = rest.
+Proof. exact mpsc_linked_prefix_visible. Qed.
+Print Assumptions C03_mpsc_linked_prefix_visible.
+
+(* Pop taken apart into its Load of tail.next and the rest (value read, value clear, tail store),
+   with producers running in between: every such run is a run of the LTS above with the pop placed
+   at the second step, so the same FIFO statement holds. *)
+Theorem C03_mpsc_split_pop_simulated : forall sched2 c loc,
+  CInv2 c loc ->
+  let '(c', loc', es) := mp2_exec sched2 c loc in
+  CInv2 c' loc' /\ exists sched1, mp_exec sched1 c = (c', es).
+Proof. exact mp2_simulated. Qed.
+Print Assumptions C03_mpsc_split_pop_simulated.
+Theorem C03_mpsc_refines_fifo_split_pop : forall progs sched2,
+  let '(c', _, es) := mp2_exec sched2 (mp_init progs) None in
+  ev_pops es ++ a_vals (abs (mp_st c')) = map snd (ev_swaps es) /\
+  (forall k, nth k progs [] = by_producer k (ev_swaps es) ++ todo_of c' k) /\
+  MpInv (mp_st c') (pendings (mp_prods c')).
+Proof. exact mpsc_refines_fifo_split_pop. Qed.
+Print Assumptions C03_mpsc_refines_fifo_split_pop.
+
+(* The three abstract operations are literally those of the process model's queue (append
+   (m, false), mark_linked, q_pop / q_visible) under any tagging of nodes by messages whose id is
+   the node number. *)
+Theorem C03_mpsc_abstraction_is_model_queue : forall (mk : nat -> Z -> msg),
+  (forall i v, mid (mk i v) = i) ->
+  forall q i v,
+  to_queue mk (q ++ [(i, v, false)]) = to_queue mk q ++ [(mk i v, false)] /\
+  to_queue mk (a_mark i q) = mark_linked i (to_queue mk q) /\
+  q_pop (to_queue mk q) = match q with (j, w, true) :: tl => Some (mk j w, to_queue mk tl) | _ => None end /\
+  a_pop q = match q with (j, w, true) :: tl => Some (w, tl) | _ => None end /\
+  q_visible (to_queue mk q) = match a_pop q with Some _ => true | None => false end.
+Proof. exact to_queue_ops. Qed.
+Print Assumptions C03_mpsc_abstraction_is_model_queue.
 
 (* Consequence for a receiver that was busy while one sender enqueued [sent]: the order
    [expected] produced by repeated scans is sorted by class and stable inside each class. *)
